@@ -126,11 +126,24 @@ def starts_case(ctx, case):
         td_in = env.generator(batch_size=[B])
     else:
         env, _ = envzoo.make(cfg)
-        td_in = envzoo.instances(env, cfg, "gen", B, seed)
+        if case.get("inst_n"):
+            # instances of ANOTHER size than the env was constructed for (a model evaluated on larger / smaller instances than
+            # its env's generator makes - the usual generalisation experiment): generated by a sibling env of that size
+            cfg_i = dict(cfg, n=case["inst_n"])
+            env_i, _ = envzoo.make(cfg_i)
+            td_in = envzoo.instances(env_i, cfg_i, "gen", B, seed)
+            ctx.count("c12_other_size_start_cases")
+        else:
+            td_in = envzoo.instances(env, cfg, "gen", B, seed)
         if case.get("hostile"):
             td_in = hostile_start_instances(env, cfg, td_in, B, seed)
     td = env.reset(td_in.clone())
     mask = td["action_mask"].reshape(B, -1)
+    if case.get("inst_n") and "locs" in td.keys() and td["locs"].dim() == 3 and mask.shape[1] != td["locs"].shape[1]:
+        # this env sizes its reset state from its generator (ATSP, PDP, mTSP, MDCPDP): instances of another size are not
+        # supported by it at all, so there is no start rule to audit
+        ctx.count("c12_other_size_unsupported_by_env")
+        return
     default_k = int(env.get_num_starts(td))
     ks = sorted(set([1, 2, default_k, max(1, default_k - 1), default_k + 1, case.get("k", 3)]))
     for k in ks:
@@ -161,6 +174,8 @@ def starts_case(ctx, case):
                 feas_c = feas
             bad = [a for a in mine if a < 0 or a >= mask.shape[1] or not bool(mask[b, a])]
             label = dict(hostile=bool(case.get("hostile")), k_vs_default="le" if k <= default_k else "gt")
+            if case.get("inst_n"):
+                label["inst_size"] = "larger" if case["inst_n"] > cfg["n"] else "smaller"
             if bad:
                 ctx.violation(sig_of(cfg, q="start_infeasible", **label), f"forced start(s) {bad} of instance {b} are not in its reset mask (feasible: {feas})", dict(k=k, B=B, row=b, starts=mine, mask=mask[b].int().tolist()))
             elif len(feas_c) >= k and len(set(mine)) != len(mine):
